@@ -342,7 +342,15 @@ SAN_FLAGS = ["-fsanitize=address,undefined", "-fno-sanitize=alignment", "-fno-sa
 
 
 def _run(cmd: List[str], cwd: Optional[str] = None, what: str = "") -> None:
-    r = subprocess.run(cmd, cwd=cwd, stdout=subprocess.PIPE, stderr=subprocess.STDOUT, text=True)
+    envv = None
+    if cwd is None and "-o" in cmd:
+        cwd_out = os.path.dirname(cmd[cmd.index("-o") + 1])
+    else:
+        cwd_out = cwd or ""
+    if cwd_out and os.path.isdir(cwd_out):
+        # compiler temporaries live and die with the case directory (a compilation cut off by the case budget leaves nothing in /tmp)
+        envv = dict(os.environ, TMPDIR=cwd_out)
+    r = subprocess.run(cmd, cwd=cwd, stdout=subprocess.PIPE, stderr=subprocess.STDOUT, text=True, env=envv)
     if r.returncode != 0:
         raise CBuildError(what or " ".join(cmd[:4]), " ".join(cmd) + "\n" + r.stdout)
 
